@@ -27,7 +27,7 @@ import sys, os, json, importlib, py_compile, tempfile
 root = sys.argv[1]
 sys.path.insert(0, root)
 sys.dont_write_bytecode = True
-tmp = tempfile.mkdtemp(prefix="c02py.")
+tmp = tempfile.mkdtemp(prefix="c02py.", dir=os.path.dirname(os.path.abspath(root)))  # inside the workspace: removed with it
 cfile = os.path.join(tmp, "x.pyc")
 for line in sys.stdin:
     req = json.loads(line)
